@@ -73,6 +73,16 @@ Theorem C18_no_retry_after_buffer_overflow : forall p sizes scs, first_overflows
 Proof. exact committed_rpc_not_retried. Qed.
 Print Assumptions C18_no_retry_after_buffer_overflow.
 
+(* concurrent use (SendMsg running while RecvMsg retries): when the SendMsg of message j is
+   overtaken by a retry performed by a concurrent RecvMsg, every attempt must still receive
+   exactly what it receives in the sequential schedule (withRetry re-issues the message on the
+   new attempt) - the model gives both schedules the same trace, and the driver replays the
+   overtaken-send schedule on the real code (op form [0; j; ...]) *)
+Theorem C18_held_send_same_as_sequential : forall p j op o,
+  run_op p (0 :: j :: op) = Some o -> run_op p op = Some o.
+Proof. exact held_send_same. Qed.
+Print Assumptions C18_held_send_same_as_sequential.
+
 (* The executable predicate evaluated on implementation traces holds on every model trace. *)
 Theorem C18_holds_on_every_model_trace : forall cfg ops p, dec_cfg cfg = Some p -> forallb (op_wf p) ops = true ->
   exists obs, run cfg ops = Some obs /\ holds_b cfg ops obs = true.
@@ -85,5 +95,6 @@ Example C18_witness :
   run [4; 5; 64; 2; 14; 8] [[1; 3; 3; 1;0;14;0; 1;0;8;1; 1;0;14;0];
                              [1; 3; 5; 1;0;14;0; 1;0;14;0; 1;0;14;0; 1;0;14;0; 1;0;14;0]] =
     Some [[4; 0;1;1;0; 1;1;1;0; 2;1;1;0; 3;1;1;0; 0; 1]; [4; 0;1;1;0; 1;1;1;0; 2;1;1;0; 3;1;1;0; 14; 0]] /\
-  (exists p, dec_cfg [4; 5; 64; 2; 14; 8] = Some p /\ op_wf p [1; 3; 3; 1;0;14;0; 1;0;8;1; 1;0;14;0] = true).
-Proof. vm_compute. split; [reflexivity|]. eexists. split; reflexivity. Qed.
+  (exists p, dec_cfg [4; 5; 64; 2; 14; 8] = Some p /\ op_wf p [1; 3; 3; 1;0;14;0; 1;0;8;1; 1;0;14;0] = true /\
+     run_op p [0; 2; 2; 1; 1; 2; 2;0;14;0; 3;2;1;0] = Some [2; 0;2;1;0; 1;2;1;1; 0; 1]).
+Proof. vm_compute. split; [reflexivity|]. eexists. split; [reflexivity|split; reflexivity]. Qed.
